@@ -140,6 +140,20 @@ impl UserFunction for TFn {
     }
 }
 
+/// A function that does NOT override `cacheable()`: the trait's default (cacheable) applies.
+pub struct DefaultCacheable(pub TFn);
+
+#[async_trait]
+impl UserFunction for DefaultCacheable {
+    async fn call(&self, param: Value) -> FunctionResult {
+        self.0.call(param).await
+    }
+
+    fn name(&self) -> &'static str {
+        self.0.desc.name
+    }
+}
+
 /// Model of one *ruleset evaluation*: predicts which calls reach the function (invocations) and
 /// what every call returns, given the function descriptions and the fault plan.
 pub struct ModelHost<'a> {
